@@ -161,6 +161,19 @@ func vChooseCorpusCase(r *vx.Run, docs []vDoc, families []string) vCase {
 	case "exact":
 		d := docs[r.Choose(len(docs), "doc")]
 		return vCase{"exact:" + d.Key, d.Bytes, d.Key}
+	case "window":
+		// the tokenizer reads through a 1024-byte buffer and scans 1020 bytes of it at a time: a filler
+		// line of EVERY length 0..1023 shifts the rest of the text through every alignment with those
+		// boundaries; the text behind it is rich in what can straddle one (CRLF pairs, 2- and 3-byte
+		// letters, typographic punctuation, hyphenated line breaks), then comes the document
+		nd := len(docs)
+		if nd > 3 {
+			nd = 3
+		}
+		d := docs[r.Choose(nd, "doc")]
+		variant := r.Choose(len(vWindowVariants), "variant")
+		pad := r.Choose(1024, "pad")
+		return vCase{fmt.Sprintf("window:%s:%s:pad%d", d.Key, vWindowVariants[variant], pad), vWindowText(d.Bytes, variant, pad), d.Key}
 	case "recase":
 		// letter case changed (the tokenizer lower-cases; Normalize keeps the case of a word's first
 		// rune): URL schemes capitalised, URLs upper-cased, all ASCII letters upper-cased, every word
@@ -316,4 +329,38 @@ func vRecase(in []byte, kind int) []byte {
 		}
 	}
 	return out
+}
+
+
+var vWindowVariants = []string{"lf", "crlf", "accented-prose", "typographic"}
+
+const vWindowProse = "F\u00fcr die \u00dcbersetzung gelten \u00e4hnliche Ma\u00dfgaben wie f\u00fcr das \u00d6ffnen gr\u00f6\u00dferer B\u00fccher\n" +
+	"\u4e16\u754c und W\u00f6rter mit \u00e4 \u00f6 \u00fc \u00df stehen \u00fcberall, auch \u201ein Anf\u00fchrungszeichen\u201c \u2013 und mit Binde\u2010\nstrichen\n"
+
+// vWindowText builds filler line (pad bytes) + feature text + document.
+func vWindowText(doc []byte, variant, pad int) []byte {
+	var sb strings.Builder
+	sb.WriteString(strings.Repeat("x ", pad/2))
+	if pad%2 == 1 {
+		sb.WriteByte('x')
+	}
+	sb.WriteByte('\n')
+	body := string(doc)
+	switch variant {
+	case 1:
+		body = strings.ReplaceAll(strings.ReplaceAll(body, "\r\n", "\n"), "\n", "\r\n")
+		sb.WriteString("zqaxav zqbxav\r\nzqcxav\r\n")
+	case 2:
+		for i := 0; i < 6; i++ {
+			sb.WriteString(vWindowProse)
+		}
+	case 3:
+		body = strings.NewReplacer("\"", "\u201c", "'", "\u2019", " - ", " \u2014 ", "-", "\u2010").Replace(body)
+		sb.WriteString("zqaxav \u201czqbxav\u201d \u2014 zqcxav\n")
+	default:
+		sb.WriteString("zqaxav zqbxav\nzqcxav\n")
+	}
+	sb.WriteString(body)
+	sb.WriteString("\nzqdxav zqexav\n")
+	return []byte(sb.String())
 }
